@@ -80,3 +80,43 @@ func ZZ_C05_Schema() {
 	}
 	vx.Assert("round trip yields an equal value", vx.Equal(v.Interface(), w.Interface()))
 }
+
+// C16-N (a): every byte string of up to maxlen bytes decoded into every schema
+// type: error or value, never a panic, no read beyond len (cap = len + 4).
+//
+//gosx:property=C16 tier=quick shards=16 strictcap unwind=24 p.maxlen=4 p.maxlen.thorough=7
+func ZZ_C16_SchemaRawBytes() {
+	t := zzPickType()
+	n := vx.Choice("len", vx.Param("maxlen", 4)+1)
+	b := vx.Bytes("b", n+4)[:n]
+	w := reflect.New(t)
+	asn.UnmarshalWithParams(b, w.Interface(), "")
+	vx.Assert("decoder returned", true)
+}
+
+// C16-N (b): every single-octet corruption of a valid encoding (any octet of
+// the encoding replaced by an arbitrary value: identifier, length or contents,
+// i.e. every over-long / truncated / mistyped variant one octet away) decoded
+// into the type it was produced from: error or value, never a panic.
+//
+//gosx:property=C16 tier=quick shards=16 strictcap unwind=24 p.shapes=1 p.shapes.thorough=2
+func ZZ_C16_SchemaCorruptedEncoding() {
+	t := zzPickType()
+	v := reflect.New(t)
+	pol := zzPolicy{maxDepth: 12, slen: 1, fullOnly: vx.Param("shapes", 1)}
+	zzFill(v.Elem(), "r", 0, pol)
+	enc, err := asn.BerMarshalWithParams(v.Interface(), "")
+	if err != nil {
+		return
+	}
+	vx.Assume(len(enc) <= 48) // longer encodings are outside this obligation's bound
+	b := make([]byte, len(enc), len(enc)+4)
+	copy(b, enc)
+	if len(b) > 0 {
+		i := vx.Choice("pos", len(b))
+		b[i] = vx.Byte("octet")
+	}
+	w := reflect.New(t)
+	asn.UnmarshalWithParams(b, w.Interface(), "")
+	vx.Assert("decoder returned", true)
+}
